@@ -150,7 +150,27 @@ def run(ctx, rep):
         writers = sorted({fn.path for fn, bi, how in acc if how in ('write', 'refmut', 'init')})
         readers = sorted({fn.path for fn, bi, how in acc if how in ('read', 'ref', 'arg')})
         rep.check(writers == [L.R_LAYER], 'R5', 'writers/' + fld, where, 'written only by read_from_layer_dir', 'written by %s' % writers)
-        rep.check(readers == [L.APPLY], 'R5', 'readers/' + fld, where, 'read only by apply', 'read by %s (the writer must never see it)' % readers)
+        # read only by apply and by private helpers that only apply can reach; never by anything the writer can reach
+        ap = prog.fns.get(L.APPLY)
+        wl_ = prog.fns.get(L.W_LAYER)
+        from_apply = set(prog.reach([ap])) if ap else set()
+        from_writer = set(prog.reach([wl_])) if wl_ else set()
+        callers_ = prog.callers()
+
+        def only_from_apply(path, depth=0):
+            if path == L.APPLY:
+                return True
+            f_ = prog.fns.get(path)
+            if f_ is None or depth > 4 or f_.vis == 'pub' or path not in from_apply:
+                return False
+            parent = f_.parent if f_.kind == 'Closure' else None
+            if parent:
+                return only_from_apply(parent, depth + 1)
+            cs_ = [c for c in callers_.get(path, []) if c.name == path]
+            return bool(cs_) and all(only_from_apply(c.fn.path, depth + 1) for c in cs_)
+        bad_readers = [r_ for r_ in readers if not only_from_apply(r_) or r_ in from_writer]
+        rep.check(bool(readers) and not bad_readers, 'R5', 'readers/' + fld, where,
+                  'read only by apply (and private helpers only apply reaches)', 'read by %s (the writer must never see it)' % (bad_readers or readers))
     # the writer persists exactly the four explicit scopes
     wf, wt, wcalls = L.writer_scope_table(prog, sl)
     rep.check(sorted(wt) == ['all', 'build', 'launch', 'process[*]'] and all(sc is not None for _, sc, _, _, _ in wcalls), 'R5', 'writer/scopes',
